@@ -17,8 +17,10 @@ package cleaner
 //@   function
 //@   reads ghost_committedEpoch
 
+// SetCommitted copies the entries: it must not keep a reference to the
+// caller's map (the syncer keeps updating its own map on every load, before the
+// next snapshot is published). No field of the worker changes (frame).
 //@ func (w *Worker) SetCommitted
-//@   trusted
 //@   modifies ghost_committedEpoch
 //@   ghost nsetcommitted := ghost_nsetcommitted + 1
 
